@@ -234,7 +234,7 @@ def run(rep, tier, seed):
     rep.negative_cfgs.append("MC_Equality_ascoded.cfg (map-or-list part equality ignores key / index conditions)")
     rng = random.Random(seed + 14)
     events, recipes = [], {}
-    for _ in range(900 if tier == "quick" else 30000):
+    for _ in range(1800 if tier == "quick" else 30000):
         kind = rng.choice(["cond", "part", "part", "path", "path", "rule", "rule", "schema"])
         try:
             vs, roles, probes = make_family(rng, kind)
